@@ -7,6 +7,7 @@ import (
 	"hash/fnv"
 	"reflect"
 	"sort"
+	"strconv"
 	"strings"
 	"unsafe"
 
@@ -221,6 +222,9 @@ type c03Case struct {
 	History  []int         `json:"history,omitempty"` // indexes into the alphabet
 	Pair     []*model.Expr `json:"pair,omitempty"`
 	Extended bool          `json:"extended,omitempty"`
+	Big      int           `json:"big,omitempty"`
+	Edit     []int         `json:"edit,omitempty"`
+	EditTo   []string      `json:"edit_to,omitempty"`
 }
 
 func (c c03Case) sig() string {
@@ -375,6 +379,105 @@ func c03Pairs(ctx *rt.Ctx, job *rt.Job, a c03Args, w *c03World) []*rt.Violation 
 	return nil
 }
 
+// c03BigPreload: an index with 2500 distinct values: every value's count and the per-column group-by must be the same
+// on demand, preloaded, and preloaded+cached (the quantifier's "whether or not data is preloaded" on an index whose
+// preload crosses any batching the loader may do).
+func c03BigPreload(ctx *rt.Ctx) *rt.Violation {
+	n := 2500
+	rowf := func(i int) model.Row { return model.Row{"v": strconv.Itoa(i), "k": strconv.Itoa(i % 3)} }
+	p, _, err := ix.BuildFunc(ctx.Scratch, n, rowf, ix.MemFile)
+	if err != nil {
+		rt.Harnessf("build: %v", err)
+	}
+	defer removeFile(p)
+	render := func(pre bool, cache updog.Cache) (out []string) {
+		idx, err := ix.Open(p, pre, cache)
+		if err != nil {
+			return []string{"open error " + err.Error()}
+		}
+		defer idx.Close()
+		for i := 0; i < n; i++ {
+			r, _ := safeExec(idx, &updog.Query{Expr: model.Eq("v", strconv.Itoa(i)).Updog()})
+			out = append(out, r)
+		}
+		r, _ := safeExec(idx, &updog.Query{Expr: model.Not(model.Eq("k", "9")).Updog(), GroupBy: []string{"v"}})
+		return append(out, r)
+	}
+	base := render(false, nil)
+	for _, cfg := range []string{"preloaded", "preloaded+lru"} {
+		var c updog.Cache
+		if cfg == "preloaded+lru" {
+			c = updog.NewLRUCache(1 << 20)
+		}
+		got := render(true, c)
+		ctx.Cov.Add("bigpreload_probes", int64(len(got)))
+		for i := range base {
+			if i >= len(got) || got[i] != base[i] {
+				cs := c03Case{Cfg: c03Cfg{Preload: true, Cache: cfg}, Big: i}
+				return rt.NewViolation("C03", "bigpreload", fmt.Sprintf("bigpreload cfg=%s probe=%d", cfg, i), cs, "on a 2500-value index, probe %d (value v=%d or the group-by) returns %s %s, on demand it returns %s", i, i, trunc(got[i]), cfg, trunc(base[i]))
+			}
+		}
+	}
+	return nil
+}
+
+// c03Edited: the same expression OBJECT executed again after the caller edited it in place (exported fields): the
+// second execution must answer the edited expression, not a cached answer of the old one.
+func c03Edited(ctx *rt.Ctx) *rt.Violation {
+	for _, pre := range []bool{false, true} {
+		for _, cn := range []string{"ample", "lru3"} {
+			w := newC03World(ctx, c03Cfg{Preload: pre, Cache: cn})
+			vals := []string{"1", "0", "zz"}
+			cols := []string{"a", "b", "c"}
+			build := func(shape int) (updog.Expression, []*updog.ExprEqual) {
+				l1, l2 := &updog.ExprEqual{Column: "a", Value: "1"}, &updog.ExprEqual{Column: "b", Value: "1"}
+				switch shape {
+				case 0:
+					return &updog.ExprAnd{Exprs: []updog.Expression{l1, l2}}, []*updog.ExprEqual{l1, l2}
+				case 1:
+					return &updog.ExprOr{Exprs: []updog.Expression{l1, &updog.ExprNot{Expr: l2}}}, []*updog.ExprEqual{l1, l2}
+				default:
+					return &updog.ExprNot{Expr: &updog.ExprAnd{Exprs: []updog.Expression{&updog.ExprOr{Exprs: []updog.Expression{l1}}, l2}}}, []*updog.ExprEqual{l1, l2}
+				}
+			}
+			toModel := func(shape int, l []*updog.ExprEqual) *model.Expr {
+				m1, m2 := model.Eq(l[0].Column, l[0].Value), model.Eq(l[1].Column, l[1].Value)
+				switch shape {
+				case 0:
+					return model.And(m1, m2)
+				case 1:
+					return model.Or(m1, model.Not(m2))
+				default:
+					return model.Not(model.And(model.Or(m1), m2))
+				}
+			}
+			for shape := 0; shape < 3; shape++ {
+				for leaf := 0; leaf < 2; leaf++ {
+					for _, col := range cols {
+						for _, val := range vals {
+							w.fresh()
+							e, leaves := build(shape)
+							first, _ := safeExec(w.idx, &updog.Query{Expr: e})
+							leaves[leaf].Column, leaves[leaf].Value = col, val
+							second, _ := safeExec(w.idx, &updog.Query{Expr: e})
+							ctx.Cov.Add("edited_tree_cases", 1)
+							ctx.Cov.Add("traces_validated_against_impl", 1)
+							want := w.want(c03Query{Expr: toModel(shape, leaves)})
+							if second != want {
+								w.close()
+								cs := c03Case{Cfg: w.cfg, Edit: []int{shape, leaf}, EditTo: []string{col, val}}
+								return rt.NewViolation("C03", "edited", fmt.Sprintf("%s edited-tree shape=%d leaf=%d -> %s=%q", w.cfg, shape, leaf, col, val), cs, "an expression object was executed (%s), then one of its leaves was changed to %s=%q and it was executed again: got %s, a fresh uncached index returns %s", first, col, val, second, want)
+							}
+						}
+					}
+				}
+			}
+			w.close()
+		}
+	}
+	return nil
+}
+
 func c03Run(ctx *rt.Ctx) []*rt.Violation {
 	var jobs []rt.Job
 	for _, pre := range []bool{false, true} {
@@ -406,14 +509,26 @@ func c03Run(ctx *rt.Ctx) []*rt.Violation {
 	}
 	outs := rt.RunJobs(ctx, jobs, rt.SpawnOpt{})
 	vs := rt.Collect(ctx, outs, nil)
+	if v := c03BigPreload(ctx); v != nil {
+		vs = append(vs, v)
+	}
+	if v := c03Edited(ctx); v != nil {
+		vs = append(vs, v)
+	}
 	ctx.Cov.Note("alphabet", fmt.Sprintf("%d queries over leaves a,b,c of the truth-table dataset (count identifies the boolean function), incl. permuted/duplicated operands, single-operand AND/OR, NOT pairs, one grouped query", len(c03Alphabet())))
-	ctx.Cov.Note("rule", "BFS over query histories per configuration {on-demand,preloaded} x {no cache, LRU 0, ~1 entry, ~3 entries, ample}; state = (cache key, content checksum) of every cached entry in recency order + checksum of all preloaded bitmaps; every transition's result compared with the uncached answer; plus all ordered query pairs of a tree space on a fresh ample cache")
+	ctx.Cov.Note("rule", "BFS over query histories per configuration {on-demand,preloaded} x {no cache, LRU 0, ~1 entry, ~3 entries, ample}; state = (cache key, content checksum) of every cached entry in recency order + checksum of all preloaded bitmaps; every transition's result compared with the uncached answer; plus all ordered query pairs of a tree space on a fresh ample cache; plus a 2500-value index probed value by value on demand vs preloaded vs preloaded+cached; plus expression objects executed, edited in place (every leaf x column x value) and executed again")
 	ctx.Assumef("cache keys are compared up to 64-bit collisions of the hash function (property text)")
 	ctx.Assumef("the future of an index+cache depends only on the cached (key, content) list in recency order and the preloaded bitmap contents (state merging)")
 	return vs
 }
 
 func c03Replay(ctx *rt.Ctx, v *rt.Violation) *rt.Violation {
+	if v.Kind == "bigpreload" {
+		return c03BigPreload(ctx)
+	}
+	if v.Kind == "edited" {
+		return c03Edited(ctx)
+	}
 	var c c03Case
 	if err := json.Unmarshal(v.Case, &c); err != nil {
 		rt.Harnessf("case: %v", err)
